@@ -75,6 +75,11 @@ def gen_case(rng, frontend=None):
         if framer == 'binary' and any(b in (0x7B, 0x7D) for b in f[1:-1]):
             continue
         steps.append({'uid': uid, 'req': r, 'frame': f})
+    if not single and len(units) >= 2 and len(steps) >= 2 and rng.random() < 0.3:
+        # the application removes a hosted unit while the server runs (`del context[u]`): later requests must see the new set
+        u = rng.choice([x for x, _ in units][:-1] + [units[0][0]])
+        pos = rng.randrange(1, len(steps))
+        steps.insert(pos, {'uid': None, 'del': u, 'req': None, 'frame': {'del': u}})
     return dict(frontend=fe, framer=framer, single=single, units=units, ignore_missing=ignore, broadcast=bcast,
                 chunks=[s['frame'] for s in steps], steps=steps)
 
@@ -120,7 +125,13 @@ def check(ctx, rep, cases):
         # (b), (c): per-step non-interference on the real dumps
         prev = before
         bad = False
+        hosted = list(hosted)
         for i, (st, o, now) in enumerate(zip(c['steps'], outs, per_step)):
+            if st.get('del') is not None:
+                if st['del'] in hosted:
+                    hosted.remove(st['del'])
+                prev = [x for x in now]
+                continue
             uid = st['uid']
             is_b = c['broadcast'] and uid == 0
             rep.hist['route:' + ('broadcast' if is_b else 'single' if c['single'] else 'hosted' if uid in hosted else 'unhosted')] += 1
@@ -157,10 +168,13 @@ def check(ctx, rep, cases):
         if bad:
             continue
         # (d) projection oracle, one `exec` query per hosted unit
-        for k, (u, desc) in enumerate(c['units']):
+        deleted = {st['del'] for st in c['steps'] if st.get('del') is not None}
+        left = [x for x in c['units'] if x[0] not in deleted]
+        for k, (u, desc) in enumerate(left):
             if any(b['kind'] == 'broken' for b in desc['blocks']):
                 continue
-            mine = [st['req'] for st in c['steps'] if (c['broadcast'] and st['uid'] == 0) or c['single'] or (st['uid'] == u)]
+            mine = [st['req'] for st in c['steps'] if st.get('del') is None and
+                    ((c['broadcast'] and st['uid'] == 0) or c['single'] or (st['uid'] == u))]
             mreqs = []
             for r in mine:
                 try:
